@@ -2,7 +2,7 @@
    Property statements only; every proof is `exact <lemma from Proofs/C41_proofs.v>`.
    hm is the host-hash oracle (which plain names a hashed token stands for); every theorem
    holds for every oracle, every table and every file, of any size. *)
-From PV Require Import Bytes C41 C41_proofs.
+From PV Require Import Bytes C41_gen C41 C41_proofs.
 Open Scope Z_scope.
 
 (* lookup returns exactly the entries that list the hostname (plain or hashed), in table
@@ -62,6 +62,30 @@ Theorem C41_load_idempotent :
 Proof. exact load_idempotent. Qed.
 Print Assumptions C41_load_idempotent.
 
+(* a line whose key field is not base64 (truncated key, @cert-authority / @revoked marker line)
+   makes load raise InvalidHostKey after the lines before it; loading that file again raises
+   again and leaves the table as the first attempt left it *)
+Theorem C41_load_idempotent_raising :
+  forall (hm : hmap) (st : state) (f : list tline),
+    let r := load_t hm st f in load_t hm (fst r) f = r.
+Proof. exact load_t_idempotent. Qed.
+Print Assumptions C41_load_idempotent_raising.
+
+(* hostkeys[q][t] = k (SubDict.__setitem__) makes k the effective key of q: it replaces the
+   first listing entry of that type, whichever name (plain or hashed) lists q *)
+Theorem C41_subdict_set_effective :
+  forall (hm : hmap) (st : state) (q : name) (t : Z) (k : key) (st' : state),
+    ktype k = t -> sub_set hm st q t k = Ok st' ->
+    eff hm st' q t = Some k /\ check hm st' q k = true.
+Proof. exact sub_set_effective. Qed.
+Print Assumptions C41_subdict_set_effective.
+
+(* the source shape the loader of the model was selected by (gen/c41.py, fail-closed) *)
+Theorem C41_source_shape :
+  gen_load_iterates_copy = true /\ gen_load_uses_has_entry = true /\ gen_shapes_pinned = true.
+Proof. exact (conj eq_refl (conj eq_refl eq_refl)). Qed.
+Print Assumptions C41_source_shape.
+
 (* the loop of the repaired load (remove from the list while iterating over a copy of it)
    drops exactly the names already known with that key *)
 Theorem C41_prune_is_filter :
@@ -96,6 +120,13 @@ Example C41_example_lookup :
   check ex_hm ex_st (Nm false 1) (1, 10) = true /\
   check ex_hm ex_st (Nm false 1) (1, 11) = false /\
   check ex_hm ex_st (Nm false 1) (2, 12) = true.
+Proof. vm_compute. repeat split. Qed.
+
+Example C41_example_subset :
+  sub_set ex_hm ex_st (Nm false 1) 1 (1, 13) =
+    Ok [([Nm true 7], (1, 13)); ([Nm false 1; Nm false 2], (1, 11)); ([Nm false 1], (2, 12))] /\
+  load_t ex_hm ex_st [TLine (LEntry [Nm false 3] (1, 10)); TBad; TLine (LEntry [Nm false 4] (1, 10))] =
+    (ex_st ++ [([Nm false 3], (1, 10))], 101).
 Proof. vm_compute. repeat split. Qed.
 
 Example C41_example_reload :
